@@ -177,6 +177,16 @@ func endScenarios(tier string) []*Scenario {
 			add(&linScenario{name: "timeout/" + w[0] + "/" + t.s, threads: [][][]string{W(w...)}, extra: timeoutOracle(t.ms)})
 		}
 	}
+	// (a') the deadline is absolute: a waiter that is woken by a push inside an EXEC that takes the
+	// element away again goes back to waiting for the REST of its timeout
+	for ci, w := range [][]string{{"BLPOP", "k", "1"}, {"BRPOP", "k", "k2", "1"}, {"BLMOVE", "k", "m", "LEFT", "RIGHT", "1"}, {"BRPOPLPUSH", "k", "m", "1"}, {"BLMPOP", "1", "1", "k", "LEFT"}} {
+		if tier != "thorough" && ci > 1 {
+			continue
+		}
+		spur := T([]string{"MULTI"}, []string{"RPUSH", "k", "x"}, []string{"LPOP", "k"}, []string{"EXEC"})
+		add(&linScenario{name: "timeout/spurious-wake/" + w[0], threads: [][][]string{W(w...), spur}, sleepBefore: map[[2]int]int{{1, 0}: 500}, noLin: true, extra: timeoutOracle(1000000)})
+		add(&linScenario{name: "timeout/two-spurious-wakes/" + w[0], threads: [][][]string{W(w...), spur, spur}, sleepBefore: map[[2]int]int{{1, 0}: 300, {2, 0}: 700}, noLin: true, extra: timeoutOracle(1000000)})
+	}
 	// (b) CLIENT UNBLOCK at every moment of the block protocol
 	for _, mode := range [][]string{nil, {"TIMEOUT"}, {"ERROR"}} {
 		u := append([]string{"CLIENT", "UNBLOCK", "$id0"}, mode...)
